@@ -125,6 +125,25 @@ theorem gate_rfp_mono (s : GateState) (p : PacketSummary) (h : s.receivedFirstPa
   rw [core_eq_iff] at this
   rw [this.2.2.2.1]; exact h
 
+/-! ### after version negotiation -/
+
+theorem gate_vn_mono (s : GateState) (p : PacketSummary) (h : s.versionNegotiated = true) :
+    (gate s p).1.versionNegotiated = true ∧ (∀ v, (gate s p).2 ≠ .recreate v) ∧ (gate s p).2 ≠ .fail ∧
+    (p.kind = .vn → (gate s p).1 = s ∧ ∃ r, (gate s p).2 = .drop r) := by
+  have hk := gate_stepKind s p
+  generalize (gate s p).1 = s' at hk
+  generalize (gate s p).2 = a at hk
+  cases hk with
+  | drop r => exact ⟨h, by simp, by simp, fun _ => ⟨rfl, r, rfl⟩⟩
+  | buffer _ h2 => exact ⟨h, by simp, by simp, fun e => absurd e h2⟩
+  | retry h1 => exact ⟨h, by simp, by simp, fun e => by simp [h1] at e⟩
+  | recreate v _ _ _ h4 => simp [h] at h4
+  | fail _ _ _ h4 => simp [h] at h4
+  | processLong fatal _ h2 =>
+    refine ⟨by rw [(firstPacket_core s p).2.2.2.2.2.1]; exact h, ?_, ?_, fun e => absurd e h2⟩ <;> cases fatal <;> simp
+  | processShort fatal h1 =>
+    refine ⟨h, ?_, ?_, fun e => by simp [h1] at e⟩ <;> cases fatal <;> simp
+
 /-! ### Retry -/
 
 theorem gate_rr_mono (s : GateState) (p : PacketSummary) (h : s.receivedRetry = true) :
